@@ -13,6 +13,7 @@ use super::*;
 //@include prelude/dbview.rs
 //@include prelude/hof.rs
 //@include prelude/resolve_spec.rs
+//@include prelude/text.rs
 //@include prelude/refs_spec.rs
 //@include prelude/resolve_l2.rs
 } // mod pre
@@ -37,13 +38,206 @@ impl FixtureDatabase {
 @ret r
 @replace 1 `&d.file_path == def_path` => `d.file_path == *def_path`
 @closure 1 |lines: &HashMap<usize, FixtureDefinition>| -> (o: Option<&FixtureDefinition>)
-@closure 2 |def: &FixtureDefinition| -> (b: bool)
-@closure 3 |def_path: &PathBuf| -> (o: Option<FixtureDefinition>)
-@closure 4 |defs: Ref<'_, String, Vec<FixtureDefinition>>| -> (o: Option<FixtureDefinition>)
-@closure 5 |d: &&FixtureDefinition| -> (b: bool)
-@closure 6 |d: &FixtureDefinition| -> (p: PathBuf)
+    ensures match o { Some(v) => lines.m().contains_key(usage.line) && *v == lines.m()[usage.line], None => !lines.m().contains_key(usage.line) }
+@closure 2 |def: &FixtureDefinition| -> (b: bool) ensures b == (def.name@ == usage.name@)
+@closure 3 |def_path: &PathBuf| -> (o: Option<FixtureDefinition>) ensures find_post_m(self.definitions.m(), usage.name@, pbv(def_path), o)
+@closure 4 |defs: Ref<'_, String, Vec<FixtureDefinition>>| -> (o: Option<FixtureDefinition>) ensures find_post(defs.r@, pbv(def_path), o)
+@closure 5 |d: &&FixtureDefinition| -> (b: bool) ensures b == (pbv(&d.file_path) == pbv(def_path))
+@closure 6 |d: &FixtureDefinition| -> (p: PathBuf) ensures pbv(&p) == pbv(&d.file_path)
 @sig
-    ensures true,
+    requires unique_at_line(self.defs()), total_usages(self.uses()) <= usize::MAX,
+    ensures counts_post(r.m(), self.defs(), self.uses(), self.provf()),
+@start
+    let ghost m0 = self.definitions.m();
+    let ghost um = self.usages.m();
+    let ghost defs = self.defs();
+    let ghost uses = self.uses();
+    let ghost provf = self.provf();
+    let ghost mut done1: Set<Seq<char>> = Set::empty();
+    let ghost mut done2: Set<Seq<char>> = Set::empty();
+@loopvar 1 it1
+@loop 1
+    invariant
+        m0 == self.definitions.m(), defs == self.defs(),
+        forall|j: int| 0 <= j < it1.seq().len() ==> m0.contains_key((#[trigger] it1.seq()[j]).k@) && *it1.seq()[j].v == m0[it1.seq()[j].k@],
+        forall|key: Seq<char>| m0.contains_key(key) ==> exists|j: int| 0 <= j < it1.seq().len() && (#[trigger] it1.seq()[j]).k@ == key,
+        forall|j: int| 0 <= j < it1.index@ ==> done1.contains((#[trigger] it1.seq()[j]).k@),
+        forall|key: CKey| #[trigger] counts.m().contains_key(key) ==> has_def_in(defs, key) && counts.m()[key] == 0,
+        forall|n: Seq<char>| done1.contains(n) && m0.contains_key(n) ==> #[trigger] init_cover(counts.m(), defs, n, m0[n]@.len() as int),
+@loopvar 2 it2
+@loop 2
+    invariant
+        m0 == self.definitions.m(), defs == self.defs(),
+        m0.contains_key(entry.k@), *entry.v == m0[entry.k@], *fixture_name == *entry.k,
+        it2.seq() == entry.v@.as_ref(),
+        forall|key: CKey| #[trigger] counts.m().contains_key(key) ==> has_def_in(defs, key) && counts.m()[key] == 0,
+        forall|n: Seq<char>| done1.contains(n) && m0.contains_key(n) ==> #[trigger] init_cover(counts.m(), defs, n, m0[n]@.len() as int),
+        init_cover(counts.m(), defs, entry.k@, it2.index@ as int),
+@loopstart 2
+    let ghost j0 = it2.index@ as int;
+    proof {
+        assert(entry.v@[j0] == *def);
+        assert(defs[entry.k@][j0] == dv(def));
+        assert(bucket(defs, entry.k@)[j0].file == pbv(&def.file_path));
+        assert(has_def_in(defs, (pbv(&def.file_path), entry.k@)));
+    }
+@loopend 1
+    proof { done1 = done1.insert(entry.k@); }
+@after for 1
+    proof {
+        assert forall|key: CKey| has_def_in(defs, key) implies #[trigger] counts.m().contains_key(key) by {
+            let i = choose|i: int| 0 <= i < bucket(defs, key.1).len() && (#[trigger] bucket(defs, key.1)[i]).file == key.0;
+            assert(m0.contains_key(key.1));
+            assert(done1.contains(key.1));
+            assert(init_cover(counts.m(), defs, key.1, m0[key.1]@.len() as int));
+        }
+    }
+@loopvar 3 it3
+@loop 3
+    invariant
+        m0 == self.definitions.m(), defs == self.defs(),
+        forall|j: int| 0 <= j < it3.seq().len() ==> m0.contains_key((#[trigger] it3.seq()[j]).k@) && *it3.seq()[j].v == m0[it3.seq()[j].k@],
+        forall|key: Seq<char>| m0.contains_key(key) ==> exists|j: int| 0 <= j < it3.seq().len() && (#[trigger] it3.seq()[j]).k@ == key,
+        forall|j: int| 0 <= j < it3.index@ ==> done2.contains((#[trigger] it3.seq()[j]).k@),
+        fdl_sound(fixture_def_lines.m(), defs),
+        forall|n: Seq<char>| done2.contains(n) && m0.contains_key(n) ==> #[trigger] fdl_cover(fixture_def_lines.m(), defs, n, m0[n]@.len() as int),
+@loopvar 4 it4
+@loop 4
+    invariant
+        m0 == self.definitions.m(), defs == self.defs(),
+        m0.contains_key(entry.k@), *entry.v == m0[entry.k@],
+        it4.seq() == entry.v@.as_ref(),
+        fdl_sound(fixture_def_lines.m(), defs),
+        forall|n: Seq<char>| done2.contains(n) && m0.contains_key(n) ==> #[trigger] fdl_cover(fixture_def_lines.m(), defs, n, m0[n]@.len() as int),
+        fdl_cover(fixture_def_lines.m(), defs, entry.k@, it4.index@ as int),
+@loopstart 4
+    let ghost j0 = it4.index@ as int;
+    let ghost fm0 = fixture_def_lines.m();
+    proof {
+        assert(entry.v@[j0] == *def);
+        assert(defs[entry.k@][j0] == dv(def));
+        assert(at_line(defs, pbv(&def.file_path), def.line, dv(def)));
+    }
+@loopend 4
+    proof {
+        let f = pbv(&def.file_path);
+        let fm = fixture_def_lines.m();
+        assert(fm.contains_key(f) && fm[f].m().contains_key(def.line) && dv(&fm[f].m()[def.line]) == dv(def));
+        assert(forall|f2: PV| f2 != f ==> (fm.contains_key(f2) <==> fm0.contains_key(f2)));
+        assert(forall|f2: PV| f2 != f && fm.contains_key(f2) ==> fm[f2] == fm0[f2]);
+        assert(forall|l: usize| l != def.line && fm[f].m().contains_key(l) ==> fm0.contains_key(f) && fm0[f].m().contains_key(l) && fm[f].m()[l] == fm0[f].m()[l]);
+        assert(forall|l: usize| fm0.contains_key(f) && fm0[f].m().contains_key(l) ==> fm[f].m().contains_key(l));
+    }
+@loopend 3
+    proof { done2 = done2.insert(entry.k@); }
+@before for 5
+    proof {
+        assert forall|n: Seq<char>| defs.contains_key(n) implies #[trigger] fdl_cover(fixture_def_lines.m(), defs, n, defs[n].len() as int) by {
+            assert(m0.contains_key(n));
+            assert(done2.contains(n));
+            assert(fdl_cover(fixture_def_lines.m(), defs, n, m0[n]@.len() as int));
+        }
+        lemma_cnt_init(counts.m(), defs, uses, provf, Seq::empty());
+        assert(cache_ok(resolution_cache.m(), defs, provf));
+    }
+@loopvar 5 it5
+@loop 5
+    invariant
+        m0 == self.definitions.m(), um == self.usages.m(), defs == self.defs(), uses == self.uses(), provf == self.provf(),
+        unique_at_line(defs), total_usages(uses) <= usize::MAX,
+        forall|j: int| 0 <= j < it5.seq().len() ==> um.contains_key(pbv((#[trigger] it5.seq()[j]).k)) && *it5.seq()[j].v == um[pbv(it5.seq()[j].k)],
+        forall|j1: int, j2: int| 0 <= j1 < j2 < it5.seq().len() ==> pbv((#[trigger] it5.seq()[j1]).k) != pbv((#[trigger] it5.seq()[j2]).k),
+        forall|key: PV| um.contains_key(key) ==> exists|j: int| 0 <= j < it5.seq().len() && pbv((#[trigger] it5.seq()[j]).k) == key,
+        fdl_sound(fixture_def_lines.m(), defs),
+        forall|n: Seq<char>| defs.contains_key(n) ==> #[trigger] fdl_cover(fixture_def_lines.m(), defs, n, defs[n].len() as int),
+        cache_ok(resolution_cache.m(), defs, provf),
+        cnt_inv(counts.m(), defs, uses, provf, ref_keys(it5.seq()).take(it5.index@ as int), Seq::empty(), Seq::empty()),
+@loopstart 5
+    let ghost ks = ref_keys(it5.seq());
+    let ghost i5 = it5.index@ as int;
+    let ghost g = pbv(entry.k);
+    proof {
+        assert(ks[i5] == g);
+        lemma_ref_keys_enum(it5.seq(), um, uses);
+        lemma_sum_seq_set(ks, uses.dom(), file_len(uses));
+        lemma_cnt_change_file(counts.m(), defs, uses, provf, ks.take(i5), Seq::empty(), g);
+    }
+@after usages 1
+    let ghost usv = uvs(usages@);
+    proof {
+        assert(um.contains_key(g) && *usages == um[g]);
+        assert(usv == bucket(uses, g));
+        assert(usv.take(0) =~= Seq::<UseV>::empty());
+    }
+@loopvar 6 it6
+@loop 6
+    invariant
+        m0 == self.definitions.m(), um == self.usages.m(), defs == self.defs(), uses == self.uses(), provf == self.provf(),
+        unique_at_line(defs),
+        g == pbv(file_path), 0 <= i5 < ks.len(), ks[i5] == g, sum_seq(ks, file_len(uses)) <= usize::MAX,
+        it6.seq() == usages@.as_ref(), usv == uvs(usages@), usv == bucket(uses, g),
+        match file_def_lines { Some(h) => fixture_def_lines.m().contains_key(g) && *h == fixture_def_lines.m()[g], None => !fixture_def_lines.m().contains_key(g) },
+        fdl_sound(fixture_def_lines.m(), defs),
+        forall|n: Seq<char>| defs.contains_key(n) ==> #[trigger] fdl_cover(fixture_def_lines.m(), defs, n, defs[n].len() as int),
+        cache_ok(resolution_cache.m(), defs, provf),
+        cnt_inv(counts.m(), defs, uses, provf, ks.take(i5), g, usv.take(it6.index@ as int)),
+@loopstart 6
+    let ghost j0 = it6.index@ as int;
+    let ghost u = uv(usage);
+    let ghost cache0 = resolution_cache.m();
+    let ghost ck: CKey = (g, u.name);
+    proof {
+        assert(usages@[j0] == *usage);
+        assert(usv[j0] == u);
+        assert(usv.take(j0).push(u) =~= usv.take(j0 + 1));
+    }
+@after fixture_def_at_line 1
+    proof {
+        assert(opt_dv(fixture_def_at_line) == fdl_lookup(fixture_def_lines.m(), g, usage.line));
+        lemma_fdl_pick(fixture_def_lines.m(), defs, g, usage.line);
+    }
+@after resolved_def 1
+    proof {
+        assert(provf(u.name) == self.prov(u.name));
+        if is_self_referencing {
+            assert(opt_dv(resolved_def) == resolve_usage(defs, provf, g, u));
+        } else {
+            assert(resolve_usage(defs, provf, g, u) == op_resolve(bucket(defs, u.name), g, provf(u.name), fs_true()));
+            if cache0.contains_key(ck) {
+                assert(resolution_cache.m() == cache0);
+                lemma_cache_hit(m0, provf, g, u.name, cache0[ck], resolved_def);
+            } else {
+                assert(opt_dv(resolved_def) == resolve_usage(defs, provf, g, u));
+                assert(resolution_cache.m() == cache0.insert(ck, resolution_cache.m()[ck]));
+                assert(opt_pbv(resolution_cache.m()[ck]) == opt_file(opt_dv(resolved_def)));
+            }
+        }
+        assert(opt_file(opt_dv(resolved_def)) == opt_file(resolve_usage(defs, provf, g, u)));
+        assert(cache_ok(resolution_cache.m(), defs, provf));
+    }
+@before resolved_def 2
+    let ghost cm0 = counts.m();
+    proof {
+        if resolved_def is None {
+            lemma_cnt_step_none(cm0, defs, uses, provf, ks.take(i5), g, usv.take(j0), u);
+        } else {
+            lemma_cnt_bound(cm0, defs, uses, provf, ks, i5, j0, (pbv(&resolved_def->0.file_path), u.name));
+        }
+    }
+@after or_insert 1
+    proof {
+        lemma_cnt_step_some(cm0, counts.m(), defs, uses, provf, ks.take(i5), g, usv.take(j0), u, pbv(&def.file_path));
+    }
+@loopend 5
+    proof {
+        assert(usv.take(usv.len() as int) =~= usv);
+        lemma_cnt_file_done(counts.m(), defs, uses, provf, ks.take(i5), g, Seq::empty());
+        assert(ks.take(i5).push(g) =~= ks.take(i5 + 1));
+    }
+@return tail
+    proof {
+        // all files done
+    }
 @*/
 }
 } // verus!
